@@ -35,6 +35,18 @@ func init() { Registry["C17"] = C17 }
 type c17Call struct {
 	Name string
 	Do   func(srv *server.GripServer) string // returns a canonical rendering of the return value
+	Read bool                                // a read: its result is part of the compared outcome
+}
+
+// ret runs the call. The property speaks about the stored graphs and about what readers observe, not
+// about the status an edit returns (two racing deletes of one edge both report success, sequentially
+// the second reports "not found": same graph), so only reads contribute their result.
+func (c c17Call) ret(srv *server.GripServer) string {
+	r := c.Do(srv)
+	if !c.Read {
+		return "-"
+	}
+	return r
 }
 
 func errS(err error) string {
@@ -45,43 +57,43 @@ func errS(err error) string {
 }
 
 func callAddVertex(g, id, label string) c17Call {
-	return c17Call{fmt.Sprintf("AddVertex(%s,%s:%s)", g, id, label), func(s *server.GripServer) string {
+	return c17Call{Name: fmt.Sprintf("AddVertex(%s,%s:%s)", g, id, label), Do: func(s *server.GripServer) string {
 		_, err := s.AddVertex(context.Background(), &gripql.GraphElement{Graph: g, Vertex: &gripql.Vertex{Gid: id, Label: label}})
 		return errS(err)
 	}}
 }
 func callAddEdge(g, id, from, to, label string) c17Call {
-	return c17Call{fmt.Sprintf("AddEdge(%s,%s:%s->%s:%s)", g, id, from, to, label), func(s *server.GripServer) string {
+	return c17Call{Name: fmt.Sprintf("AddEdge(%s,%s:%s->%s:%s)", g, id, from, to, label), Do: func(s *server.GripServer) string {
 		_, err := s.AddEdge(context.Background(), &gripql.GraphElement{Graph: g, Edge: &gripql.Edge{Gid: id, From: from, To: to, Label: label}})
 		return errS(err)
 	}}
 }
 func callDelEdge(g, id string) c17Call {
-	return c17Call{fmt.Sprintf("DeleteEdge(%s,%s)", g, id), func(s *server.GripServer) string {
+	return c17Call{Name: fmt.Sprintf("DeleteEdge(%s,%s)", g, id), Do: func(s *server.GripServer) string {
 		_, err := s.DeleteEdge(context.Background(), &gripql.ElementID{Graph: g, Id: id})
 		return errS(err)
 	}}
 }
 func callDelVertex(g, id string) c17Call {
-	return c17Call{fmt.Sprintf("DeleteVertex(%s,%s)", g, id), func(s *server.GripServer) string {
+	return c17Call{Name: fmt.Sprintf("DeleteVertex(%s,%s)", g, id), Do: func(s *server.GripServer) string {
 		_, err := s.DeleteVertex(context.Background(), &gripql.ElementID{Graph: g, Id: id})
 		return errS(err)
 	}}
 }
 func callAddGraph(g string) c17Call {
-	return c17Call{"AddGraph(" + g + ")", func(s *server.GripServer) string {
+	return c17Call{Name: "AddGraph(" + g + ")", Do: func(s *server.GripServer) string {
 		_, err := s.AddGraph(context.Background(), &gripql.GraphID{Graph: g})
 		return errS(err)
 	}}
 }
 func callDeleteGraph(g string) c17Call {
-	return c17Call{"DeleteGraph(" + g + ")", func(s *server.GripServer) string {
+	return c17Call{Name: "DeleteGraph(" + g + ")", Do: func(s *server.GripServer) string {
 		_, err := s.DeleteGraph(context.Background(), &gripql.GraphID{Graph: g})
 		return errS(err)
 	}}
 }
 func callGetEdge(g, id string) c17Call {
-	return c17Call{fmt.Sprintf("GetEdge(%s,%s)", g, id), func(s *server.GripServer) string {
+	return c17Call{Read: true, Name: fmt.Sprintf("GetEdge(%s,%s)", g, id), Do: func(s *server.GripServer) string {
 		e, err := s.GetEdge(context.Background(), &gripql.ElementID{Graph: g, Id: id})
 		if err != nil {
 			return "notfound"
@@ -90,7 +102,7 @@ func callGetEdge(g, id string) c17Call {
 	}}
 }
 func callGetVertex(g, id string) c17Call {
-	return c17Call{fmt.Sprintf("GetVertex(%s,%s)", g, id), func(s *server.GripServer) string {
+	return c17Call{Read: true, Name: fmt.Sprintf("GetVertex(%s,%s)", g, id), Do: func(s *server.GripServer) string {
 		v, err := s.GetVertex(context.Background(), &gripql.ElementID{Graph: g, Id: id})
 		if err != nil {
 			return "notfound"
@@ -107,7 +119,7 @@ func callBulk(elems ...*gripql.GraphElement) c17Call {
 			n = append(n, e.Graph+":e:"+e.Edge.Gid)
 		}
 	}
-	return c17Call{"BulkAdd[" + strings.Join(n, ",") + "]", func(s *server.GripServer) string {
+	return c17Call{Name: "BulkAdd[" + strings.Join(n, ",") + "]", Do: func(s *server.GripServer) string {
 		st := &c18Stream{}
 		for _, e := range elems {
 			st.elems = append(st.elems, &gripql.GraphElement{Graph: e.Graph, Vertex: e.Vertex, Edge: e.Edge})
@@ -120,7 +132,7 @@ func callBulk(elems ...*gripql.GraphElement) c17Call {
 	}}
 }
 func callTraversalCount(g string) c17Call {
-	return c17Call{"Traversal(" + g + ",V().count())", func(s *server.GripServer) string {
+	return c17Call{Read: true, Name: "Traversal(" + g + ",V().count())", Do: func(s *server.GripServer) string {
 		sink := &rowSink{}
 		err := s.Traversal(&gripql.GraphQuery{Graph: g, Query: gripql.V().Count().Statements}, sink)
 		if err != nil {
@@ -144,7 +156,7 @@ func c17Scns() []c17Scn {
 	}
 	base := []c17Call{callAddGraph("g1"), callAddVertex("g1", "a", "P"), callAddVertex("g1", "b", "Q")}
 	withEdge := append(append([]c17Call{}, base...), callAddEdge("g1", "e", "a", "b", "x"))
-	return []c17Scn{
+	out := []c17Scn{
 		{Name: "same-id AddVertex x2", Setup: base, Clients: [][]c17Call{{callAddVertex("g1", "c", "P")}, {callAddVertex("g1", "c", "Q")}}},
 		{Name: "AddEdge || DeleteEdge", Setup: base, Clients: [][]c17Call{{callAddEdge("g1", "e", "a", "b", "x")}, {callDelEdge("g1", "e")}}},
 		{Name: "AddEdge || DeleteVertex(endpoint)", Setup: base, Clients: [][]c17Call{{callAddEdge("g1", "e", "a", "b", "x")}, {callDelVertex("g1", "b")}}},
@@ -161,6 +173,24 @@ func c17Scns() []c17Scn {
 		{Name: "disjoint-id writers", Setup: base, Clients: [][]c17Call{{callAddVertex("g1", "c", "P"), callAddEdge("g1", "f", "c", "a", "x")}, {callAddVertex("g1", "d", "Q"), callAddEdge("g1", "h", "d", "b", "y")}}},
 		{Name: "two relabels || reader", Setup: base, Clients: [][]c17Call{{callAddVertex("g1", "a", "Q")}, {callAddVertex("g1", "a", "R")}, {callGetVertex("g1", "a")}}},
 	}
+	// every unordered pair (a call may race with itself) of an 8-call alphabet whose ids are forced to
+	// collide, on a graph that already holds the edge e: a->b
+	alpha := []c17Call{
+		callAddVertex("g1", "a", "R"),         // relabel an endpoint
+		callAddEdge("g1", "e", "a", "b", "x"), // re-add the stored edge
+		callAddEdge("g1", "e", "b", "a", "y"), // re-add it with other endpoints and label
+		callDelEdge("g1", "e"),
+		callDelVertex("g1", "a"),
+		callDelVertex("g1", "b"),
+		callAddVertex("g1", "c", "P"),         // unrelated new vertex
+		callAddEdge("g1", "f", "a", "b", "x"), // second edge between the same endpoints
+	}
+	for i := range alpha {
+		for j := i; j < len(alpha); j++ {
+			out = append(out, c17Scn{Name: "pair: " + alpha[i].Name + " || " + alpha[j].Name, Setup: withEdge, Clients: [][]c17Call{{alpha[i]}, {alpha[j]}}})
+		}
+	}
+	return out
 }
 
 var c17U = gmodel.Universe{Graphs: []string{"g1", "g2"}, VIDs: []string{"a", "b", "c", "d"}, EIDs: []string{"e", "f", "h"}, VLabels: []string{"P", "Q", "R"}, Filters: [][]string{nil, {"x"}}}
@@ -224,7 +254,7 @@ func sequentialOutcomes(sc c17Scn) map[string]string {
 			var names []string
 			for _, o := range order {
 				call := sc.Clients[o[0]][o[1]]
-				rets[o[0]] = append(rets[o[0]], call.Do(srv))
+				rets[o[0]] = append(rets[o[0]], call.ret(srv))
 				names = append(names, call.Name)
 			}
 			for _, pr := range sc.Probe {
@@ -284,7 +314,7 @@ func c17Scenarios(tier string) []schedScenario {
 						defer wg.Done()
 						for _, call := range sc.Clients[c] {
 							vs.PointAt("client-call")
-							rets[c] = append(rets[c], call.Do(srv))
+							rets[c] = append(rets[c], call.ret(srv))
 						}
 					})
 				}
